@@ -2,6 +2,7 @@ package main
 
 import (
 	"fmt"
+	"golang.org/x/tools/go/packages"
 	"go/ast"
 	"go/constant"
 	"go/token"
@@ -408,52 +409,11 @@ func c15Prefixes(c *Ctx) {
 	}
 
 	// (b) no hard-coded `prefix.` strings used in comparisons / prefix tests
-	re := regexp.MustCompile(`^([A-Za-z][A-Za-z0-9-]*)[.:]`)
-	hard := 0
-	for _, pk := range p.modPkgsSorted() {
-		if pk == ctxPk {
-			continue
-		}
-		info := pk.TypesInfo
-		for _, file := range pk.Syntax {
-			if strings.HasSuffix(p.Fset.Position(file.Pos()).Filename, "peg.go") {
-				continue
-			}
-			ast.Inspect(file, func(n ast.Node) bool {
-				var operands []ast.Expr
-				where := ""
-				switch x := n.(type) {
-				case *ast.CallExpr:
-					name := funcFullName(calleeOf(info, x))
-					switch name {
-					case "strings.HasPrefix", "strings.Contains", "strings.Index", "strings.TrimPrefix", "strings.EqualFold", "strings.Compare", "strings.Cut", "strings.CutPrefix":
-						operands, where = x.Args, name
-					}
-				case *ast.BinaryExpr:
-					if x.Op == token.EQL || x.Op == token.NEQ {
-						operands, where = []ast.Expr{x.X, x.Y}, "a comparison"
-					}
-				case *ast.CaseClause:
-					operands, where = x.List, "a switch case"
-				}
-				for _, op := range operands {
-					tv, ok := info.Types[op]
-					if !ok || tv.Value == nil || tv.Value.Kind() != constant.String {
-						continue
-					}
-					s := constant.StringVal(tv.Value)
-					m := re.FindStringSubmatch(s)
-					if m == nil || !defaults[m[1]] {
-						continue
-					}
-					hard++
-					r.Bad("C15.O3", relOf(pk)+"."+enclosingFuncName(pk, op.Pos())+"#hard-coded:"+m[1], p.Pos(op.Pos()), fmt.Sprintf("the prefix name %q is hard-coded in %s: behaviour depends on how the profile spells a prefix instead of on the namespace it is bound to", s, where))
-				}
-				return true
-			})
-		}
+	uses := prefixLiteralUses(p, defaults, ctxPk)
+	for _, u := range uses {
+		r.Bad("C15.O3", u.key, p.Pos(u.pos), fmt.Sprintf("the prefix name %q is hard-coded in %s: behaviour depends on how the profile spells a prefix instead of on the namespace it is bound to", u.lit, u.where))
 	}
-	r.OK("C15.O3", "hard-coded-prefix-census", "", fmt.Sprintf("%d default prefix names; %d uses of a hard-coded `prefix.` literal in comparisons or prefix tests", len(defaults), hard))
+	r.OK("C15.O3", "hard-coded-prefix-census", "", fmt.Sprintf("%d default prefix names; %d uses of a hard-coded `prefix.` literal in comparisons or prefix tests", len(defaults), len(uses)))
 
 	// (c) the expander resolves the prefix through its context only
 	for i := 0; i < expander.NumMethods(); i++ {
@@ -508,4 +468,92 @@ func refersToObj(info *types.Info, e ast.Expr, o types.Object) bool {
 		return true
 	})
 	return found
+}
+
+type prefixUse struct {
+	key, lit, where string
+	pos             token.Pos
+}
+
+// prefixLiteralUses: string constants of the form `<default prefix>.…` used as operands of comparisons, prefix tests or
+// switch cases anywhere in the module's hand-written code.
+func prefixLiteralUses(p *Prog, defaults map[string]bool, ctxPk *packages.Package) []prefixUse {
+	var out []prefixUse
+	re := regexp.MustCompile(`^([A-Za-z][A-Za-z0-9-]*)[.:]`)
+	for _, pk := range p.modPkgsSorted() {
+		if pk == ctxPk {
+			continue
+		}
+		info := pk.TypesInfo
+		for _, file := range pk.Syntax {
+			if strings.HasSuffix(p.Fset.Position(file.Pos()).Filename, "peg.go") {
+				continue
+			}
+			ast.Inspect(file, func(n ast.Node) bool {
+				var operands []ast.Expr
+				where := ""
+				switch x := n.(type) {
+				case *ast.CallExpr:
+					name := funcFullName(calleeOf(info, x))
+					switch name {
+					case "strings.HasPrefix", "strings.Contains", "strings.Index", "strings.TrimPrefix", "strings.EqualFold", "strings.Compare", "strings.Cut", "strings.CutPrefix":
+						operands, where = x.Args, name
+					}
+				case *ast.BinaryExpr:
+					if x.Op == token.EQL || x.Op == token.NEQ {
+						operands, where = []ast.Expr{x.X, x.Y}, "a comparison"
+					}
+				case *ast.CaseClause:
+					operands, where = x.List, "a switch case"
+				}
+				for _, op := range operands {
+					tv, ok := info.Types[op]
+					if !ok || tv.Value == nil || tv.Value.Kind() != constant.String {
+						continue
+					}
+					s := constant.StringVal(tv.Value)
+					m := re.FindStringSubmatch(s)
+					if m == nil || !defaults[m[1]] {
+						continue
+					}
+					out = append(out, prefixUse{relOf(pk) + "." + enclosingFuncName(pk, op.Pos()) + "#hard-coded:" + m[1], s, where, op.Pos()})
+				}
+				return true
+			})
+		}
+	}
+	return out
+}
+
+// defaultPrefixTable reads the package-level prefix table of the contexts package.
+func defaultPrefixTable(p *Prog) (map[string]bool, *types.Var, *packages.Package) {
+	ctxPk := p.Pkg("internal/validator/contexts")
+	defaults := map[string]bool{}
+	var defaultVar *types.Var
+	if ctxPk == nil {
+		return defaults, nil, nil
+	}
+	for _, n := range ctxPk.Types.Scope().Names() {
+		v, ok := ctxPk.Types.Scope().Lookup(n).(*types.Var)
+		if !ok {
+			continue
+		}
+		if _, isMap := v.Type().Underlying().(*types.Map); !isMap {
+			continue
+		}
+		init, pk := p.varInitializer(v)
+		cl, ok := init.(*ast.CompositeLit)
+		if !ok {
+			continue
+		}
+		for _, el := range cl.Elts {
+			if kv, ok := el.(*ast.KeyValueExpr); ok {
+				if s, ok := constString(pk.TypesInfo, kv.Key); ok {
+					defaults[s] = true
+				}
+			}
+		}
+		defaultVar = v
+	}
+	return defaults, defaultVar, ctxPk
 }
